@@ -85,7 +85,7 @@ postfix_expr:
 				yylex.Error(errLValue($2))
 			} else if n, ok := expand(yylex, $1); ok {
 				$$.n = n
-				yylex.(*lexer).env.Set($1.s, strconv.Itoa($$.n + 1))
+				store(yylex, $1.s, $$.n + 1)
 			}
 		}
 	|	postfix_expr DEC
@@ -95,7 +95,7 @@ postfix_expr:
 				yylex.Error(errLValue($2))
 			} else if n, ok := expand(yylex, $1); ok {
 				$$.n = n
-				yylex.(*lexer).env.Set($1.s, strconv.Itoa($$.n - 1))
+				store(yylex, $1.s, $$.n - 1)
 			}
 		}
 
@@ -108,7 +108,7 @@ unary_expr:
 				yylex.Error(errLValue($1))
 			} else if n, ok := expand(yylex, $2); ok {
 				$$.n = n + 1
-				yylex.(*lexer).env.Set($2.s, strconv.Itoa($$.n))
+				store(yylex, $2.s, $$.n)
 			}
 		}
 	|	DEC      unary_expr
@@ -118,7 +118,7 @@ unary_expr:
 				yylex.Error(errLValue($1))
 			} else if n, ok := expand(yylex, $2); ok {
 				$$.n = n - 1
-				yylex.(*lexer).env.Set($2.s, strconv.Itoa($$.n))
+				store(yylex, $2.s, $$.n)
 			}
 		}
 	|	unary_op unary_expr
@@ -291,7 +291,7 @@ expr:
 					$$, ok = calculate(yylex, $1, $2[:len($2)-1], $3)
 				}
 				if ok {
-					yylex.(*lexer).env.Set($1.s, strconv.Itoa($$.n))
+					store(yylex, $1.s, $$.n)
 				}
 			}
 		}
@@ -366,6 +366,14 @@ func init() {
 type expr struct {
 	n int
 	s string
+}
+
+// store assigns n to the variable named by the name, unless an error
+// was reported by the parser: no assignment is performed after a fault.
+func store(yylex yyLexer, name string, n int) {
+	if l := yylex.(*lexer); !l.faulted {
+		l.env.Set(name, strconv.Itoa(n))
+	}
 }
 
 func errLValue(op string) string {
